@@ -31,8 +31,10 @@ class Ev:
             return "<%s %s @%d>" % (self.kind, Program.exc_name(self.data), getattr(self.node, "lineno", 0))
         if self.kind == "iter":
             return "<for#%s @%d>" % (self.data, self.node.lineno)
-        if self.kind in ("finally", "return"):
+        if self.kind in ("finally", "return", "iret"):
             return "<%s @%d>" % (self.kind, self.node.lineno)
+        if self.kind in ("enter", "exit"):
+            return "<%s %s>" % (self.kind, self.data.short)
         return "%s:%s" % (self.kind, norm(self.node)[:70])
 
 
@@ -46,7 +48,7 @@ class Path:
         self.end_node = end_node  # Return node / origin node of the exception
 
     def describe(self, maxlen: int = 14) -> str:
-        evs = [repr(e) for e in self.events if e.kind in ("test", "raise", "catch", "iter")]
+        evs = [repr(e) for e in self.events if e.kind in ("test", "raise", "catch", "iter", "enter", "exit")]
         if len(evs) > maxlen:
             evs = evs[:maxlen] + ["..."]
         tail = self.end
@@ -55,6 +57,18 @@ class Path:
         elif self.end == "return" and self.end_node is not None:
             tail = "return@%d" % self.end_node.lineno
         return " ".join(evs) + " => " + tail
+
+    def fn_at(self, i: int, root: FuncInfo) -> FuncInfo:
+        """The function whose body produced event i (the root function, or an inlined helper)."""
+        stack = [root]
+        for ev in self.events[:i + 1]:
+            if ev.kind == "enter":
+                stack.append(ev.data)
+            elif ev.kind == "exit" and len(stack) > 1:
+                stack.pop()
+        if self.events and i < len(self.events) and self.events[i].kind == "exit":
+            return self.events[i].data
+        return stack[-1]
 
     def index_of(self, pred: Callable[[Ev], bool], start: int = 0) -> int:
         for i in range(start, len(self.events)):
@@ -114,21 +128,61 @@ def cond_paths(test: ast.expr) -> List[Tuple[Tuple[Tuple[ast.expr, bool], ...], 
                     new.append((atoms + a2, r2))
             acc = new
         return acc
+    if isinstance(test, ast.Constant):
+        return [(((test, bool(test.value)),), bool(test.value))]   # 'while True', a helper's 'return False'
     return [(((test, True),), True), (((test, False),), False)]
+
+
+# Inlining policy: (call node, calling function) -> package function whose body is spliced into the path, or None.
+# Set once per run by core.Ctx: helpers that are not part of the pinned function inventory are inlined, so that the
+# path rules see through "extract method" refactorings; the pinned functions keep their summaries.
+DEFAULT_INLINE: List[Optional[Callable]] = [None]
+MAX_INLINE_DEPTH = 4
 
 
 class Enumerator:
     def __init__(self, prog: Program, fn: FuncInfo, oracle: Oracle = no_raise, unroll: int = 2,
-                 max_paths: int = 50000):
+                 max_paths: int = 50000, inline="default"):
         self.prog, self.fn, self.oracle = prog, fn, oracle
         self.unroll = unroll
         self.max_paths = max_paths
         self._count = 0
+        self.inline = DEFAULT_INLINE[0] if inline == "default" else inline
+
+    def _fn(self, hctx: dict) -> FuncInfo:
+        return hctx.get("__fn__", self.fn)
+
+    def _inlinee(self, n: ast.AST, hctx: dict) -> Optional[FuncInfo]:
+        if self.inline is None or not isinstance(n, ast.Call):
+            return None
+        stack = hctx.get("__stack__", (self.fn.qualname,))
+        if len(stack) > MAX_INLINE_DEPTH:
+            return None
+        g = self.inline(n, self._fn(hctx))
+        if g is None or g.qualname in stack:
+            return None
+        return g
+
+    def _inline_body(self, call: ast.Call, g: FuncInfo, evs: Tuple[Ev, ...], hctx: dict):
+        """Events of the helper's body between enter / exit markers.  Yields (events, outcome) with outcome
+        ('done', return node | None) or ('raise', cls, origin)."""
+        stack = hctx.get("__stack__", (self.fn.qualname,))
+        h2 = {"__fn__": g, "__stack__": stack + (g.qualname,)}
+        start = evs + (Ev("enter", call, g),)
+        for e2, oc in self._block(g.body, start, h2):
+            if oc[0] == "fall":
+                yield e2 + (Ev("exit", call, g),), ("done", None)
+            elif oc[0] == "return":
+                yield e2 + (Ev("exit", call, g),), ("done", oc[1])
+            elif oc[0] == "raise":
+                yield e2 + (Ev("exit", call, g),), oc
+            else:
+                raise AnalysisError("break/continue outside loop in %s" % g.qualname)
 
     # outcome: ('fall',) | ('return', node) | ('raise', cls, origin) | ('break',) | ('continue',)
     def paths(self) -> List[Path]:
         out: List[Path] = []
-        for evs, oc in self._block(self.fn.body, (), {}):
+        for evs, oc in self._block(self.fn.body, (), {}):  # hctx: handler variables, plus __fn__/__stack__ inside inlined helpers
             if oc[0] == "fall":
                 out.append(Path(evs, "fall"))
             elif oc[0] == "return":
@@ -142,20 +196,74 @@ class Enumerator:
         return out
 
     # ----------------------------------------------------------- expressions
-    def _expr(self, expr: Optional[ast.AST], evs: Tuple[Ev, ...]):
+    def _expr(self, expr: Optional[ast.AST], evs: Tuple[Ev, ...], hctx: dict):
         """Yield (events, None) for normal completion and (events, ('raise', cls, origin)) for each exception."""
         if expr is None:
             yield evs, None
             return
-        cur = evs
-        for n in eval_order(expr):
-            for exc in self.oracle(n, self.fn):
+        yield from self._nodes(eval_order(expr), 0, evs, hctx, set())
+
+    def _nodes(self, nodes: List[ast.AST], i: int, cur: Tuple[Ev, ...], hctx: dict, inlined: set):
+        fn = self._fn(hctx)
+        while i < len(nodes):
+            n = nodes[i]
+            g = self._inlinee(n, hctx)
+            if g is not None:
+                cur = cur + (Ev("call", n),)
+                for e2, oc in self._inline_body(n, g, cur, hctx):
+                    if oc[0] == "raise":
+                        yield e2, oc
+                    else:
+                        yield from self._nodes(nodes, i + 1, e2, hctx, inlined | {id(n)})
+                return
+            if isinstance(n, ast.Await) and id(n.value) in inlined:
+                cur = cur + (Ev("await", n),)      # the coroutine's body was spliced in at the call
+                i += 1
+                continue
+            for exc in self.oracle(n, fn):
                 yield cur + (Ev("raise", n, exc),), ("raise", exc, n)
             cur = cur + (Ev("await" if isinstance(n, ast.Await) else "call", n),)
+            i += 1
         yield cur, None
 
-    def _cond(self, test: ast.expr, evs: Tuple[Ev, ...]):
-        """Yield (events, result|None, raise_outcome|None)."""
+    def _atom(self, atom: ast.expr, outcome: bool, evs: Tuple[Ev, ...], hctx: dict):
+        """Evaluate one atom of a condition towards *outcome*.  A call to an inlined helper is decided by the helper's
+        own return expression (its atoms appear as test events of the helper's frame)."""
+        call = atom.value if isinstance(atom, ast.Await) else atom
+        g = self._inlinee(call, hctx)
+        if g is None:
+            for e2, oc in self._expr(atom, evs, hctx):
+                yield (e2, oc) if oc is not None else (e2 + (Ev("test", atom, outcome),), None)
+            return
+        pre = [x for x in eval_order(call) if x is not call]
+        for e1, oc1 in self._nodes(pre, 0, evs, hctx, set()):
+            if oc1 is not None:
+                yield e1, oc1
+                continue
+            e1 = e1 + (Ev("call", call),)
+            stack = hctx.get("__stack__", (self.fn.qualname,))
+            h2 = {"__fn__": g, "__stack__": stack + (g.qualname,)}
+            for e2, oc2 in self._block(g.body, e1 + (Ev("enter", call, g),), h2):
+                tail = (Ev("exit", call, g),) + ((Ev("await", atom),) if isinstance(atom, ast.Await) else ()) + (Ev("test", atom, outcome),)
+                if oc2[0] == "raise":
+                    yield e2 + (Ev("exit", call, g),), oc2
+                elif oc2[0] == "fall" or (oc2[0] == "return" and oc2[1].value is None):
+                    if outcome is False:
+                        yield e2 + tail, None
+                elif oc2[0] == "return":
+                    # the Return's own expression was evaluated (calls, raises) by _stmt; decide its truth value
+                    e2 = e2[:-1] if e2 and e2[-1].kind == "iret" and e2[-1].node is oc2[1] else e2
+                    for e3, res, oc3 in self._cond(oc2[1].value, e2, h2, evaluate=False):
+                        if oc3 is not None:
+                            yield e3 + (Ev("exit", call, g),), oc3
+                        elif res == outcome:
+                            yield e3 + (Ev("iret", oc2[1]),) + tail, None
+                else:
+                    raise AnalysisError("break/continue outside loop in %s" % g.qualname)
+
+    def _cond(self, test: ast.expr, evs: Tuple[Ev, ...], hctx: dict, evaluate: bool = True):
+        """Yield (events, result|None, raise_outcome|None).  evaluate=False: the calls of the expression were already
+        evaluated (a helper's return expression), only the truth value is decided."""
         seen = set()
         for atoms, res in cond_paths(test):
             # atoms are evaluated in order; each may raise
@@ -164,15 +272,18 @@ class Enumerator:
             for atom, outcome in atoms:
                 nxt = []
                 for cur in cur_list:
-                    for e2, oc in self._expr(atom, cur):
+                    if not evaluate:
+                        nxt.append(cur + (Ev("test", atom, outcome),))
+                        continue
+                    for e2, oc in self._atom(atom, outcome, cur, hctx):
                         if oc is not None:
                             # report a raise only once per evaluated prefix (cond-paths share prefixes)
-                            key = (prefix, id(oc[2]), id(oc[1]))
+                            key = (prefix, id(oc[2]), id(oc[1]), tuple(id(x.node) for x in e2[len(cur):] if x.kind == "test"))
                             if key not in seen:
                                 seen.add(key)
                                 yield e2, None, oc
                         else:
-                            nxt.append(e2 + (Ev("test", atom, outcome),))
+                            nxt.append(e2)
                 cur_list = nxt
                 prefix = prefix + ((id(atom), outcome),)
             for cur in cur_list:
@@ -194,7 +305,7 @@ class Enumerator:
         if st.exc is None:
             cur = hctx.get("__current__")
             if cur is None:
-                raise AnalysisError("bare raise outside handler at %s" % self.fn.loc(st))
+                raise AnalysisError("bare raise outside handler at %s" % self._fn(hctx).loc(st))
             return [cur]
         e = st.exc
         if isinstance(e, ast.Call):
@@ -202,9 +313,9 @@ class Enumerator:
         if isinstance(e, ast.Name) and e.id in hctx:
             return [hctx[e.id]]
         try:
-            return self.prog.resolve_exc_expr(self.fn.module, e)
+            return self.prog.resolve_exc_expr(self._fn(hctx).module, e)
         except AnalysisError:
-            raise AnalysisError("cannot resolve raised class %s at %s" % (node_src(st), self.fn.loc(st)))
+            raise AnalysisError("cannot resolve raised class %s at %s" % (node_src(st), self._fn(hctx).loc(st)))
 
     def _stmt(self, st: ast.stmt, evs: Tuple[Ev, ...], hctx: dict):
         self._count += 1
@@ -212,7 +323,7 @@ class Enumerator:
             raise AnalysisError("path enumeration budget exceeded in %s" % self.fn.qualname)
         if isinstance(st, (ast.Expr, ast.Assign, ast.AugAssign, ast.AnnAssign, ast.Delete, ast.Assert)):
             val = st.value if not isinstance(st, (ast.Delete, ast.Assert)) else (st.test if isinstance(st, ast.Assert) else None)
-            for e2, oc in self._expr(val, evs):
+            for e2, oc in self._expr(val, evs, hctx):
                 if oc is not None:
                     yield e2, oc
                 else:
@@ -220,14 +331,14 @@ class Enumerator:
                     yield e2 + (Ev("stmt", st),), ("fall",)
             return
         if isinstance(st, ast.Return):
-            for e2, oc in self._expr(st.value, evs):
+            for e2, oc in self._expr(st.value, evs, hctx):
                 if oc is not None:
                     yield e2, oc
                 else:
-                    yield e2 + (Ev("return", st),), ("return", st)
+                    yield e2 + (Ev("iret" if "__fn__" in hctx else "return", st),), ("return", st)
             return
         if isinstance(st, ast.Raise):
-            for e2, oc in self._expr(st.exc, evs):
+            for e2, oc in self._expr(st.exc, evs, hctx):
                 if oc is not None:
                     yield e2, oc
                 else:
@@ -235,7 +346,7 @@ class Enumerator:
                         yield e2 + (Ev("raise", st, cls),), ("raise", cls, st)
             return
         if isinstance(st, ast.If):
-            for e2, res, oc in self._cond(st.test, evs):
+            for e2, res, oc in self._cond(st.test, evs, hctx):
                 if oc is not None:
                     yield e2, oc
                 elif res:
@@ -247,7 +358,7 @@ class Enumerator:
             yield from self._while(st, evs, hctx, 0)
             return
         if isinstance(st, (ast.For, ast.AsyncFor)):
-            for e2, oc in self._expr(st.iter, evs):
+            for e2, oc in self._expr(st.iter, evs, hctx):
                 if oc is not None:
                     yield e2, oc
                 else:
@@ -258,7 +369,7 @@ class Enumerator:
                 if i == len(st.items):
                     yield from self._block(st.body, cur, hctx)
                     return
-                for e2, oc in self._expr(st.items[i].context_expr, cur):
+                for e2, oc in self._expr(st.items[i].context_expr, cur, hctx):
                     if oc is not None:
                         yield e2, oc
                     else:
@@ -278,10 +389,10 @@ class Enumerator:
                            ast.AsyncFunctionDef, ast.ClassDef)):
             yield evs + (Ev("stmt", st),), ("fall",)
             return
-        raise AnalysisError("statement kind %s not modelled (%s)" % (type(st).__name__, self.fn.loc(st)))
+        raise AnalysisError("statement kind %s not modelled (%s)" % (type(st).__name__, self._fn(hctx).loc(st)))
 
     def _while(self, st: ast.While, evs, hctx, i):
-        for e2, res, oc in self._cond(st.test, evs):
+        for e2, res, oc in self._cond(st.test, evs, hctx):
             if oc is not None:
                 yield e2, oc
             elif not res:
@@ -311,11 +422,11 @@ class Enumerator:
             else:
                 yield e3, oc3
 
-    def match_handler(self, exc, handler: ast.ExceptHandler) -> str:
+    def match_handler(self, exc, handler: ast.ExceptHandler, hctx: Optional[dict] = None) -> str:
         """'yes' | 'maybe' | 'no'"""
         if handler.type is None:
             return "yes"
-        hs = self.prog.resolve_exc_expr(self.fn.module, handler.type)
+        hs = self.prog.resolve_exc_expr(self._fn(hctx or {}).module, handler.type)
         if any(self.prog.is_subclass(exc, h) for h in hs):
             return "yes"
         if any(self.prog.is_subclass(h, exc) for h in hs):
@@ -345,12 +456,12 @@ class Enumerator:
             exc, origin = oc1[1], oc1[2]
             caught = False
             for h in st.handlers:
-                m = self.match_handler(exc, h)
+                m = self.match_handler(exc, h, hctx)
                 if m == "no":
                     continue
                 narrowed = exc
                 if m == "maybe":
-                    hs = [x for x in self.prog.resolve_exc_expr(self.fn.module, h.type) if self.prog.is_subclass(x, exc)]
+                    hs = [x for x in self.prog.resolve_exc_expr(self._fn(hctx).module, h.type) if self.prog.is_subclass(x, exc)]
                     narrowed = hs[0]
                 h2 = dict(hctx)
                 h2["__current__"] = narrowed
